@@ -539,6 +539,9 @@ func isMethodContract(ct *gcl.Contract) bool { return !ct.FuncValue }
 
 func (x *Exec) applyContract(fr *frame, st *State, ct *gcl.Contract, sig *types.Signature, params []*ssa.Parameter, args []smt.T, iface bool, what string, c *ssa.CallCommon) []outcome {
 	env := x.calleeEnv(ct, sig, params, args, iface)
+	if ct.AssumedFrame {
+		x.noteTrusted("UNVERIFIED frame (modifies clause) of a repository function: " + shortName(what) + " (" + shortFile(ct.File) + ")")
+	}
 	if ct.Assumed {
 		x.noteTrusted("UNVERIFIED contract of a repository function: " + shortName(what) + " (" + shortFile(ct.File) + ")")
 	} else if ct.Trusted {
@@ -683,6 +686,11 @@ func (x *Exec) havocLoc(st *State, loc string, env map[string]binding, pkg strin
 	ectx := &evalCtx{st: st, old: st, env: env, pkg: pkg}
 	if loc == "*" {
 		x.havocAll(st)
+		return
+	}
+	if loc == "bytes(*)" { // the contents of byte buffers (any []byte backing array) may change, no object field does
+		hn, _ := x.elemHeap(types.Typ[types.Uint8])
+		x.havocHeap(st, hn)
 		return
 	}
 	if loc == "fresh(*)" { // anything allocated since the verified function was entered may change, nothing older does
@@ -895,6 +903,9 @@ func (x *Exec) heapNamesOfDesignator(loc string, ct *gcl.Contract, sig *types.Si
 	tmp := &State{cells: map[*ssa.Alloc]smt.T{}, heaps: map[string]smt.T{}, gen: -1}
 	ectx := &evalCtx{st: tmp, old: tmp, env: env, pkg: ct.Pkg}
 	switch {
+	case loc == "bytes(*)":
+		hn, _ := x.elemHeap(types.Typ[types.Uint8])
+		return []string{hn}
 	case strings.HasSuffix(loc, "[*]"):
 		e, err := x.evalTyped(mustParse(strings.TrimSuffix(loc, "[*]")), ectx)
 		if err == nil && e.typ != nil {
